@@ -411,6 +411,7 @@ func isTokenByte(c byte) bool {
 //	parameters = *( OWS ";" OWS [ parameter ] )
 //	parameter  = parameter-name "=" ( token / quoted-string )
 //
+// An empty parameter (";;") is skipped.
 // The value of a quoted-string is passed as written, without the surrounding quotes.
 // The scan stops when f returns false or at the first parameter that does not fit the grammar.
 func forEachParameter(b []byte, f func(key, value []byte) bool) {
@@ -422,6 +423,9 @@ func forEachParameter(b []byte, f func(key, value []byte) bool) {
 		b = b[i+1:]
 		for len(b) > 0 && (b[0] == ' ' || b[0] == '\t') {
 			b = b[1:]
+		}
+		if len(b) > 0 && b[0] == ';' {
+			continue // empty parameter
 		}
 
 		n := 0
